@@ -105,9 +105,13 @@ Init == l = 1 /\ slots = [x \in {} |-> 0] /\ tbl = <<>> /\ nbad = 0
 Step ==
     /\ l <= Len(Rec)
     /\ LET e == Rec[l]
-           good == Allowed(e) /\ NoPanic(e) /\ NoAlloc(e)
-       IN /\ nbad' = IF good THEN nbad ELSE nbad + 1
-          /\ IF good THEN TRUE ELSE PrintT(<<"MISMATCH", l>>)
+           pbad == ~NoPanic(e)
+           vbad == IF pbad THEN TRUE ELSE ~Allowed(e)
+           abad == ~NoAlloc(e)
+       IN /\ nbad' = IF vbad \/ pbad \/ abad THEN nbad + 1 ELSE nbad
+          /\ IF vbad THEN PrintT(<<"MISMATCH", l, "value", e.op>>) ELSE TRUE
+          /\ IF pbad THEN PrintT(<<"MISMATCH", l, "panic", e.op>>) ELSE TRUE
+          /\ IF abad THEN PrintT(<<"MISMATCH", l, "alloc", e.op>>) ELSE TRUE
           /\ slots' = CASE e.op = "session" -> [x \in {} |-> 0]
                         [] e.op = "buf" -> [x \in (DOMAIN slots) \cup {e.slot} |->
                                                IF x = e.slot THEN l ELSE slots[x]]
